@@ -6,6 +6,7 @@ import (
 	"fmt"
 	"math/rand"
 	"net"
+	"net/url"
 	"os"
 	"path/filepath"
 	"strconv"
@@ -77,9 +78,12 @@ type c20Expect struct {
 	Service  string
 	T0, T1   time.Time // harness clock before sending / after the complete response
 	Describe string
+	Host     string // Host header the client sent
+	URI      string // request target the client sent
+	Scheme   string // of the client's connection; "" when the client itself sent X-Forwarded-Proto or Forwarded
 }
 
-const c20WireFormat = "ACCESSLOG|$header.X-Verif-Id|$response_status|$response_body_size|$request_method|$upstream_service|$time_rfc3339_ms|$time_unix_ms|$time_common"
+const c20WireFormat = "ACCESSLOG|$header.X-Verif-Id|$response_status|$response_body_size|$request_method|$upstream_service|$time_rfc3339_ms|$time_unix_ms|$time_common|$request_host|$request_uri|$request_scheme|$request_url"
 
 const c07NoRouteHTML = "<html><body>no route here</body></html>"
 
@@ -395,7 +399,7 @@ func (q *c07Req) sent(name string) []string {
 func c07Wire(c *ctx, which string) {
 	c.R.Rule = "the real fabio binary (plain, TLS and IPv6 listeners, routes for every strip/prepend/host/target-query combination delivered through the fake Consul KV) between raw-socket clients and a socket-level recording upstream: generated methods, raw paths with percent-encoded segments, queries, 0-16 headers incl. repeated and forged managed ones, bodies 0B-1MiB by Content-Length or chunked; scripted upstream answers (status 200-599, headers, length/chunked/close framing, trailers). "
 	if which == "c20" {
-		c.R.Rule = "[c20-wire] the real binary (same HTTP rig as c07-wire: 36 routes, raw-socket clients, scripted upstream answers incl. 1xx informational responses, chunked/length/close framing, HEAD, large bodies) with -log.access.target stdout and a format of 8 fields, fabio's TZ set far from UTC: exactly one line per completed proxied request; status, payload size, method and service equal what the client saw on the wire; the time fields are UTC, agree with each other and lie between the sending of the request and the reading of the log on the harness clock. evaluations = logged requests compared; non-trivial = request with a non-200 status or a body"
+		c.R.Rule = "[c20-wire] the real binary (same HTTP rig as c07-wire: 36 routes, raw-socket clients, scripted upstream answers incl. 1xx informational responses, chunked/length/close framing, HEAD, large bodies) with -log.access.target stdout and a format of 12 fields, fabio's TZ set far from UTC: exactly one line per completed proxied request; status, payload size, method and service equal what the client saw on the wire; the time fields are UTC, agree with each other and lie between the sending of the request and the reading of the log on the harness clock. evaluations = logged requests compared; non-trivial = request with a non-200 status or a body"
 	}
 	if which == "c20" {
 	} else if which == "c07" {
@@ -501,7 +505,7 @@ func c07One(c *ctx, which string, rg *c07Rig, q *c07Req, unrouted *atomic.Int64)
 	}
 	if which == "c20" {
 		if q.Route >= 0 && resp.Err == nil {
-			rg.logged.Store(q.ID, &c20Expect{Status: resp.Status, BodyLen: len(resp.Body), Method: q.Method, Service: fmt.Sprintf("r%d", q.Route), T0: t0, T1: time.Now(), Describe: c07Describe(q)})
+			rg.logged.Store(q.ID, &c20Expect{Status: resp.Status, BodyLen: len(resp.Body), Method: q.Method, Service: fmt.Sprintf("r%d", q.Route), T0: t0, T1: time.Now(), Describe: c07Describe(q), Host: q.HostHdr, URI: c20Target(q), Scheme: c20Scheme(q)})
 		}
 		return
 	}
@@ -862,9 +866,27 @@ func c20CheckLog(c *ctx, rg *c07Rig) {
 			return true
 		}
 		f := strings.Split(lines[id][0], "|")
-		if len(f) != 9 {
-			c.R.Violate("c20w:line-malformed", fmt.Sprintf("line %q does not have the 9 configured fields", lines[id][0]), in)
+		if len(f) != 13 {
+			c.R.Violate("c20w:line-malformed", fmt.Sprintf("line %q does not have the 13 configured fields", lines[id][0]), in)
 			return true
+		}
+		// the request as the client made it: host asked for (also on routes that rewrite Host), target, scheme of its connection
+		if f[9] != e.Host {
+			c.R.Violate("c20w:request-host-differs", fmt.Sprintf("the client asked for host %q, $request_host says %q\n request: %s", e.Host, f[9], e.Describe), in)
+		}
+		if f[10] != e.URI {
+			c.R.Violate("c20w:request-uri-differs", fmt.Sprintf("the client sent the target %q, $request_uri says %q", e.URI, f[10]), in)
+		}
+		if e.Scheme != "" {
+			if f[11] != e.Scheme {
+				c.R.Violate("c20w:request-scheme-differs", fmt.Sprintf("the client's connection is %s, $request_scheme says %q\n request: %s", e.Scheme, f[11], e.Describe), in)
+			}
+			if u, err := url.ParseRequestURI(e.URI); err == nil {
+				want := (&url.URL{Scheme: e.Scheme, Host: e.Host, Path: u.Path, RawQuery: u.RawQuery}).String()
+				if f[12] != want {
+					c.R.Violate("c20w:request-url-differs", fmt.Sprintf("$request_url is %q, the standard library renders the client's request as %q\n request: %s", f[12], want, e.Describe), in)
+				}
+			}
 		}
 		if f[2] != strconv.Itoa(e.Status) {
 			c.R.Violate("c20w:status-differs", fmt.Sprintf("the client received status %d, the log says %s\n request: %s", e.Status, f[2], e.Describe), in)
@@ -933,4 +955,21 @@ func c07NoRoutePages(c *ctx, rg *c07Rig) {
 		}
 	}
 	c.R.Count("noroute_page_changes", int64(len(pages)))
+}
+
+func c20Target(q *c07Req) string {
+	if q.Query != "" {
+		return q.RawPath + "?" + q.Query
+	}
+	return q.RawPath
+}
+
+func c20Scheme(q *c07Req) string {
+	if len(q.sent("X-Forwarded-Proto")) > 0 || len(q.sent("Forwarded")) > 0 {
+		return "" // what the scheme field should say then is not demanded
+	}
+	if q.Via == "tls" {
+		return "https"
+	}
+	return "http"
 }
